@@ -14,6 +14,7 @@ PROC_TIMEOUT = 900
 #   dscript := '-' | [01]*          1 = discovery run k completes inside RunFull/IncrementalDiscovery
 #   ops     := '-' | op*            op := P (Pause) | R (Resume) | S(ops) submit a request whose completion
 #              callback performs ops | F(ops) full discovery | I(ops) incremental discovery |
+#              f | i full / incremental discovery with a NULL callback |
 #              D reply ; the underlying controller answers its oldest outstanding request |
 #              E the underlying controller finishes its oldest outstanding discovery
 #   The controller is destroyed after the last op; the completion callbacks the destructor runs are live
@@ -42,7 +43,7 @@ def gen_consts(v):
 
 
 RULE = ('exhaustive top-level histories up to length 4 (quick) / 5 (thorough) over {pause, resume, submit, '
-        'submit-with-re-entrant-submit, deliver ACK / ACK_OVERFLOW / timeout, full / incremental discovery, '
+        'submit-with-re-entrant-submit, deliver ACK / ACK_OVERFLOW / timeout, full / incremental discovery (with a callback or NULL), '
         'discovery done} under rotating queue limits and mock scripts, plus random histories of up to 25 '
         'top-level ops with nested callback scripts (depth <= 3), queue limits 1-4, replies of every status / '
         'response type / NULL response, overflow part sizes around the 4096-byte limit, synchronous and '
@@ -107,8 +108,10 @@ def rand_ops(rng, n, depth, discov, budget):
         elif k < 0.87 and discov:
             inner = rand_ops(rng, rng.choice([0, 0, 1, 1, 2]), depth + 1, discov, budget) if depth < 3 else ''
             out.append('%s(%s)' % (rng.choice('FI'), inner))
-        elif k < 0.95 and discov:
+        elif k < 0.92 and discov:
             out.append('E')
+        elif k < 0.96 and discov:
+            out.append(rng.choice('fi'))
         else:
             out.append(rng.choice(['S()', 'D%s;' % rp(0, 3), 'D%s;' % rp(0, 0)]))
     return ''.join(out)
@@ -129,7 +132,7 @@ def rand_dscript(rng, n):
     return ''.join('1' if rng.random() < p else '0' for _ in range(n))
 
 
-ALPHABET = ['P', 'R', 'S()', 'S(S())', 'D%s;' % rp(0, 0, fill=6), 'D%s;' % rp(0, 3, fill=7),
+ALPHABET = ['P', 'R', 'S()', 'S(S())', 'i', 'D%s;' % rp(0, 0, fill=6), 'D%s;' % rp(0, 3, fill=7),
             'D%s;' % rp(3, 9), 'F()', 'I(S())', 'E']
 SCRIPTS = [('-', '-'), ('Y%s' % rp(0, 0), '1'), ('L,Y%s,Y%s' % (rp(0, 3, fill=8), rp(0, 0, fill=9)), '01'),
            ('Y%s,L,Y%s' % (rp(0, 3, fill=8), rp(3, 9)), '10')]
@@ -141,7 +144,7 @@ def exhaustive(rng, maxlen, all_cfg):
     for L in range(0, maxlen + 1):
         for seq in itertools.product(ALPHABET, repeat=L):
             ops = ''.join(seq) or '-'
-            discov = 1 if any(c in ops for c in 'FIE') else rng.choice([0, 1])
+            discov = 1 if any(c in ops for c in 'FIEfi') else rng.choice([0, 1])
             cfgs = [(mx, sc) for mx in (1, 2) for sc in range(len(SCRIPTS))] if all_cfg else \
                    [((k % 3) + 1, (k // 3) % len(SCRIPTS))]
             for mx, sc in cfgs:
@@ -187,7 +190,8 @@ def scenarios(rng, n):
             yield '%d %d - - %s' % (mx, discov, ops)
         elif kind == 4:    # discovery coalescing
             ops = rng.choice(['F()', 'I()', 'S()'])
-            ops += ''.join(rng.choice(['F()', 'I()', 'I(F())', 'F(S())', 'S()', 'P', 'R', 'E', 'D%s;' % ack()])
+            ops = rng.choice(['F()', 'I()', 'S()', 'f', 'i', 'i'])
+            ops += ''.join(rng.choice(['F()', 'I()', 'I(F())', 'F(S())', 'S()', 'P', 'R', 'E', 'f', 'i', 'i', 'S(i)', 'I(f)', 'D%s;' % ack()])
                            for _ in range(rng.randrange(2, 9)))
             ops += 'RE' + rng.choice(['', 'E', 'ED%s;' % ack()])
             yield '%d 1 %s %s %s' % (mx, rand_mscript(rng, rng.randrange(3)), rand_dscript(rng, rng.randrange(4)), ops)
